@@ -20,7 +20,9 @@ PROP = "C18"
 LEVEL = "exploration"
 
 CORPUS = ["quic_default", "quic_zero_ccid", "quic_prefix_cids", "quic_ncid", "quic_two", "tls12", "tls12_b", "tls13_v6", "tls13_b", "mixed",
-          "quic_dup_initial", "quic_vn", "tls12_retransmissions"]
+          "quic_dup_initial", "quic_vn", "tls12_retransmissions", "tls12_cbc_damaged", "tls_nine"]
+# tls12_cbc_damaged: one bit of the last cipher block of a CBC record is flipped (padding and MAC no longer verify);
+# tls_nine: nine short TLS connections of different sizes in one capture
 # quic_dup_initial: the client's first Initial datagram was captured twice (its CRYPTO frame is seen again after it was consumed);
 # quic_vn: a Version Negotiation datagram from the server's address follows the client's first Initial;
 # tls12_retransmissions: every third data segment is captured twice
@@ -30,7 +32,7 @@ def describe(tier):
     S = 128 if tier == "quick" else 2048
     return {
         "rule": f"H: {len(CORPUS)} scenarios (incl. a duplicated Initial, a Version Negotiation datagram, TCP retransmissions) x (every iteration order of the scenario's connection-ID set realised by a hash seed in 0..{S - 1}, "
-                "one witness seed each) x cwd in {/, temp, /repo} x 5 environments, through `python -m tlexport.main` in fresh "
+                "one witness seed each) x cwd in {/, temp, /repo} x 7 environments, through `python -m tlexport.main` in fresh "
                 "processes, plus two runs with -a; R: all ordered pairs (A,B) of corpus entries, without and with -a, run back to back in one interpreter without state "
                 "restoration. non-trivial: a run whose output holds data and equals the reference hash; distinct = distinct "
                 "(scenario, seed/cwd/env) or pair",
@@ -41,7 +43,7 @@ def describe(tier):
             "the only hash-seed dependent seam is the iteration order of sets of connection IDs; orders are enumerated via witness "
             "seeds (CPython gives hash(b'') = 0 under every seed, so a zero-length ID always iterates first: such orders cannot "
             "occur and are not explored)",
-            "environment variations: minimal env, LANG=C, LANG=C.UTF-8, TZ=Asia/Tokyo, HOME unset + PYTHONUTF8=1",
+            "environment variations: minimal env, LANG=C, LANG=C.UTF-8, TZ=Asia/Tokyo, HOME unset + PYTHONUTF8=1, PYTHONOPTIMIZE=1, PYTHONOPTIMIZE=2 + PYTHONDEVMODE=1",
         ],
     }
 
@@ -70,6 +72,16 @@ def scenario(name, seed):
                 bytes.fromhex("00000001") + bytes.fromhex("6b3343cf") + bytes.fromhex("1a2a3a4a")
             f.pkts.insert(1, cap.Pkt(0, "s", "udp", vn))
         flows.append(f)
+    elif name == "tls12_cbc_damaged":
+        f = scen.tls_flow({"version": tls.TLS12, "suite": 0x003D, "history": [("c", 100), ("s", 620), ("c", 50), ("s", 40)]}, seed, 0, key=("dmg",))
+        big = max((p for p in f.pkts if p.dir == "s" and p.payload), key=lambda p: len(p.payload))
+        big.payload = big.payload[:-3] + bytes([big.payload[-3] ^ 0x10]) + big.payload[-2:]
+        flows.append(f)
+    elif name == "tls_nine":
+        for i in range(9):
+            v, code = [(tls.TLS12, 0xC02F), (tls.TLS13, 0x1301), (tls.TLS10, 0x002F)][i % 3]
+            flows.append(scen.tls_flow({"version": v, "suite": code, "history": [("c", 20 + i), ("s", 3000 * (9 - i) if i % 2 else 10 + i)]}, seed, i,
+                                       key=("nine",)))
     elif name == "tls12_retransmissions":
         f = scen.tls_flow({"version": tls.TLS12, "suite": 0x009C, "history": [("c", 200), ("s", 900), ("c", 50)]}, seed, 0, mss=300, key=("rt",))
         idx = [i for i, p in enumerate(f.pkts) if p.payload]
@@ -122,7 +134,8 @@ def witness_seeds(cidsets, S):
     return orders
 
 
-ENVS = [{}, {"LANG": "C"}, {"LANG": "C.UTF-8", "LC_ALL": "C.UTF-8"}, {"TZ": "Asia/Tokyo"}, {"PYTHONUTF8": "1", "HOME": None}]
+ENVS = [{}, {"LANG": "C"}, {"LANG": "C.UTF-8", "LC_ALL": "C.UTF-8"}, {"TZ": "Asia/Tokyo"}, {"PYTHONUTF8": "1", "HOME": None},
+        {"PYTHONOPTIMIZE": "1"}, {"PYTHONOPTIMIZE": "2", "PYTHONDEVMODE": "1"}]
 
 
 def cases(tier, seed):
